@@ -59,6 +59,15 @@ theorem C12_several_defects_comment (dia : Dialect) (body : Body) (sN R : Str) (
       = tokLoop dia f true ⟨10 :: R, line, body.col (col + 1) + colAdd sN⟩ acceptAll (body.reps line (col + 1) ++ log) :=
   multi_comment body sN R line col f log hb hN hNe
 
+/-- … a comment that ends at the END OF THE INPUT (no line terminator): the reports of the events, then the END token -/
+theorem C12_several_defects_comment_eof (dia : Dialect) (body : Body) (sN : Str) (line col f : Nat) (log : List Report)
+    (hb : ∀ p ∈ body, (okUnits dia none p.1 = true ∧ p.1.all (fun x => !isEol x) = true) ∧ EvToEol dia line p.2)
+    (hN : okUnits dia none sN = true) (hNe : sN.all (fun x => !isEol x) = true) :
+    tokLoop dia (f + 2) true ⟨35 :: (body.inp ++ sN), line, col⟩ acceptAll log
+      = .ok (⟨.end_, [], line, body.col (col + 1) + colAdd sN⟩, ⟨[], line, body.col (col + 1) + colAdd sN⟩)
+          (body.reps line (col + 1) ++ log) :=
+  multi_comment_eof body sN line col f log hb hN hNe
+
 /-- **C12_invalid_char_lead_anywhere** — ONE unpaired lead surrogate `l` in the middle of a token (CIF 2.0), followed by an ordinary
     character `x`: in a quoted string, a data name, a comment.  ONE report CIF_INVALID_CHAR, at the column behind `x` (the lead is
     noticed when the next unit turns out not to be a trail surrogate); `l` is replaced by U+FFFD, `x` is kept. -/
